@@ -185,6 +185,32 @@ let rn_dump () =
       | _ -> "?") js in
   "(" ^ String.concat " " classes ^ ") (" ^ String.concat " " shapes ^ ")"
 
+(* round 4: expand-template (coq/C07/Template.v) *)
+let rec parse_tm toks : tm * string list =
+  match toks with
+  | [] -> failwith "eof"
+  | t :: r ->
+    let num () = n_of_int (int_of_string (String.sub t 1 (String.length t - 1))) in
+    (match t.[0] with
+     | 'S' -> (TSym (num ()), r)
+     | 'R' -> (TRen (num ()), r)
+     | 'L' -> (TNum (num ()), r)
+     | 'U' -> (TUser (num ()), r)
+     | 'N' -> (TNil, r)
+     | 'P' -> let (a, r1) = parse_tm r in let (d, r2) = parse_tm r1 in (TPair (a, d), r2)
+     | 'V' -> let (l, r1) = parse_tm r in (TVec l, r1)
+     | _ -> failwith "bad tm token")
+let rec show_tm (t : tm) : string =
+  match t with
+  | TSym s -> "S" ^ string_of_int (int_of_n s)
+  | TRen s -> "R" ^ string_of_int (int_of_n s)
+  | TNum s -> "L" ^ string_of_int (int_of_n s)
+  | TUser s -> "U" ^ string_of_int (int_of_n s)
+  | TNil -> "N"
+  | TPair (a, d) -> "P " ^ show_tm a ^ " " ^ show_tm d
+  | TVec l -> "V " ^ show_tm l
+let rec tm_size (t : tm) : int = match t with TPair (a, d) -> 1 + tm_size a + tm_size d | TVec l -> 1 + tm_size l | _ -> 1
+
 let handle fields =
   let fields = List.filter (fun s -> s <> "") fields in
   let i = int_of_string in
@@ -210,6 +236,20 @@ let handle fields =
       (match resolve [] [] (nat_of_int 200) ((n_of_int 100000, n_of_int 100000), []) (mk_fv ()) (mk_env (i ce)) (mk_ident (i j)) with
        | OK (_, t) -> show_ana t
        | Err _ -> "ERR")
+  | "tmpl" :: ell :: off :: nv :: rest ->
+      (* tmpl ELL OFF NVARS (s dim)* <template> NENV (s <value>)*  -> instantiated template | ERR few|many|other *)
+      let i = int_of_string in
+      let rec vars k r acc = if k = 0 then (List.rev acc, r) else
+        (match r with s :: d :: r' -> vars (k - 1) r' ((n_of_int (i s), nat_of_int (i d)) :: acc) | _ -> failwith "vars") in
+      let (vs, r1) = vars (i nv) rest [] in
+      let (t, r2) = parse_tm r1 in
+      let rec envl k r acc = if k = 0 then List.rev acc else
+        (match r with s :: r' -> let (v, r'') = parse_tm r' in envl (k - 1) r'' ((n_of_int (i s), v) :: acc) | _ -> failwith "env") in
+      let rho = (match r2 with ne :: r3 -> envl (i ne) r3 [] | [] -> []) in
+      let c = { ell = n_of_int (i ell); ell_off = (off = "1") } in
+      (match compile c vs (nat_of_int (tm_size t + 1)) t (nat_of_int 0) false with
+       | TErr e -> (match int_of_n e with 1 -> "ERR few" | 2 -> "ERR many" | 3 -> "ERR fuel" | _ -> "ERR subset")
+       | TOK k -> (match eval k rho with Some o -> show_tm o | None -> "ERR other"))
   | "strip" :: bound :: toks ->
       let (d, _) = parse_datum toks in show_datum (strip_synclos (nat_of_int (i bound)) d)
   | ["cell"; k; j; l] ->
